@@ -1,23 +1,40 @@
 """C04 — Frequency-shift covariance and conjugate symmetry of two-sided spectra."""
-import json, cmath
+import json, cmath, os
 import numpy as np
 import vlib
 from vlib import cz, czl, tolq, fcl
 from props import _estimators as E
+from props import _pipelines as PL
 
-LEVEL_TEXT = ("Coq theorems (abstract *-field + DFT character, every length, shift and bin): the DFT of modulated data is the DFT "
-              "shifted by m bins, of conjugated data the mirrored conjugate, of reversed data the mirrored DFT up to a unimodular factor; "
-              "autocorrelation lags of modulated data rotate by tw(-mk), the autocorrelation is invariant under conjugated time reversal, "
-              "LEVINSON on modulated lags rotates coefficient j by tw(-m(j+1)) and keeps the error power.  The DFT specification is tied to "
-              "numpy.fft by a binary64 correspondence, the correlation/Levinson models by exact runs at modulated inputs (n=4); every "
-              "estimator class is covered by a search comparing rotated / mirrored / folded / time-reversed estimates.")
+LEVEL_TEXT = ("Coq theorems (abstract *-field + DFT character; every N, NFFT >= 1, shift m in Z, bin): modulating sample j by exp(2 pi i m j/NFFT) "
+              "rolls by m bins, conjugation mirrors, conj(x[::-1]) leaves unchanged -- proved for numpy.fft.fft's model, speriodogram (any window; "
+              "real / real symmetric window for mirror / reversal), CORRELOGRAMPSD (both back ends, every norm, lag, overlapping layouts, error "
+              "branches), CORRELATION, LEVINSON, aryule, arburg (reflection coefficient j times phi(j+1), rho unchanged, same stop / raise decisions; "
+              "ef/eb swap under reversal), arma2psd (coefficient j times tw(-m(j+1)) => rolled; conjugated => mirrored), minvar (aliased grids included), "
+              "MultiTapering.__call__ with unity / eigen / adapt weights (adaptive iteration in lock step), arcovar / modcovar (corrmtx + Gaussian elimination on the "
+              "normal equations with its exact zero tests + the 'wierd behaviour' assertion: equivariant under the diagonal unitary congruence of the Gram matrix; "
+              "modcovar is reversal invariant because forward and backward Gram blocks swap), arma.ma (aryule twice), and the composed class spectra of pyule, pburg, "
+              "pcovar, pmodcovar, pma, pminvar.  Class level over the pipeline table GENERATED from the source on this run: every class except pmusic/pev stores a scalar multiple "
+              "of the estimator's array, so roll / mirror commute with the store and scale() calls; the AR/MA/ARMA, minvar and multitaper classes store for "
+              "real data 2 x the first onesided_len(NFFT) bins of the complex store (NFFT even and odd, any reachable state).  Real data: CORRELATION, LEVINSON, "
+              "aryule, arburg commute with any *-homomorphism R -> F (real path = complex path) and return real parameters.  The DFT specification is tied to "
+              "numpy.fft by a binary64 correspondence, CORRELATION / LEVINSON by exact runs at modulated inputs; every class is also covered by a search "
+              "comparing rotated / mirrored / folded / time-reversed estimates.")
 TRUSTED = ["Coq 8.16.1 kernel + vm_compute", "numpy.fft.fft is modelled by the DFT specification Theory/Dft.v (validated by the binary64 correspondence of this run)",
-           "hand-written models Corr/Levinson (tie = exact correspondence at modulated inputs)", "Python harness"]
-UNPROVED = ["class-level rotation and mirror for each estimator (compositions with arma2psd / pipelines), one-sided = 2 x half, Burg / modified "
-            "covariance / multitaper / minimum-variance time reversal: search only at this commit"]
-ASSUMPTIONS = ["exact arithmetic in the theorems"]
+           "hand-written models Corr/Levinson (tie = exact correspondence at modulated inputs here), MaEst (arma.ma = aryule twice; exact correspondence here), "
+           "Periodogram/Arma2psd/Yule/Burg/Minvar/Mtm/Ls (tie = the correspondence checks of C01/C08/C09/C12/C13/C16/C19)", "fail-closed AST translator tools/props/_pipelines.py + interpreter coq/Model/PipelineLib.v "
+           "(validated against real objects by C08)", "dpss tapers are an oracle (real, symmetric/antisymmetric: hypotheses of the multitaper mirror / reversal theorems)",
+           "Python harness"]
+UNPROVED = ["arma_estimate under modulation / conjugation (no model): the parma class spectrum follows from arma2psd_rotation / arma2psd_mirror only once it is "
+            "known -- search only",
+            "pmusic / pev (eigen), pdaniell, real-data correlogram fold (twosided_2_onesided), arma2psd norm=True: search only",
+            "scipy.linalg.lstsq in arcovar / modcovar is represented by the executable solver ls_solve (agrees with every normal-equation solver on full-rank data, C09)",
+            "conjugation / real-path theorems assume the divisors of the executed stages are nonzero (N, N-k, mean power, error powers, Burg denominators)"]
+ASSUMPTIONS = ["exact arithmetic in the theorems", "detrend off for the periodogram shift clause (subtracting the mean is not modulation covariant; the class default is None)"]
 RULE = ("complex data x shift m (any integer incl. negative and > NFFT) x every class x NFFT even/odd; conjugation; real data declared complex; "
         "conj-time-reversal for the invariant estimators; non-trivial = non-constant data, m not a multiple of NFFT")
+GEN_NAMES = ['table_complete_c04', 'class_rotation', 'class_mirror', 'onesided_is_twice_half', 'onesided_length', 'routing_yule', 'routing_burg',
+             'routing_minvar_mtm_fourier', 'routing_covar_ma']
 
 PRE_DFT = """From Coq Require Import PrimFloat.
 Require Import Spectrum.Theory.Ops Spectrum.Theory.Vec Spectrum.Theory.Dft Spectrum.Instances.FloatC Spectrum.Instances.FloatTw Spectrum.Instances.QcC.
@@ -36,6 +53,20 @@ Definition lev_mod_case tol (m : Z) (r : list QcC) (order : nat) raised ia ip ik
   match @levinson _ qcc_ops (@vmod _ qcc_ops (shift_phase tw4 m) 0 r) order false with
   | None => raised
   | Some (a, p, k) => negb raised && qcc_close_rel tol (dy 1 0) a ia && qcc_close_rel tol (dy 1 0) [p] [ip] && qcc_close_rel tol (dy 1 0) k ik
+  end.
+"""
+
+PRE_MA = """Require Import Spectrum.Theory.Ops Spectrum.Theory.Vec Spectrum.Model.Levinson Spectrum.Model.Corr Spectrum.Model.Yule Spectrum.Model.MaEst
+               Spectrum.Instances.QcC.
+From Coq Require Import QArith Qcanon.
+Local Open Scope Z_scope.
+(* arma.ma against Model/MaEst.v at QcC: outcome 0 = returned, 1 = ValueError (orders), 2 = AssertionError (M >= N), 3 = singular *)
+Definition ma_case tol (x : list QcC) (Q M : nat) (outcome : nat) (ib : list QcC) (irho : QcC) : bool :=
+  match @ma_est _ qcc_ops x Q M with
+  | inl MaValue => Nat.eqb outcome 1
+  | inl MaAssert => Nat.eqb outcome 2
+  | inl MaSingular => Nat.eqb outcome 3
+  | inr (b, rho) => Nat.eqb outcome 0 && qcc_close_rel tol (dy 1 0) b ib && qcc_close_rel tol (dy 1 0) [rho] [irho]
   end.
 """
 
@@ -104,6 +135,19 @@ def run(ctx):
     rng = ctx.rng
     ctx.check_theorems('Properties/C04.v')
 
+    # ---------------- class-level theorems over the pipeline table generated from the snapshot source
+    src = os.path.join(vlib.SNAP, 'src', 'spectrum')
+    try:
+        table_v = PL.gallina(PL.extract(src))
+    except PL.Fail as e:
+        table_v = None
+        for nm_ in GEN_NAMES:
+            ctx.obligations.append((nm_, False, []))
+        ctx.broken.append({'theorem': 'translator:pipelines (source outside the recognised shapes)', 'where': src, 'log': str(e)})
+    if table_v is not None:
+        thm = open(os.path.join(os.path.dirname(os.path.abspath(__file__)), '_c04_theorems.v.in')).read()
+        ctx.check_generated('C04_pipelines', table_v + thm, GEN_NAMES)
+
     # ---------------- the DFT specification against numpy.fft.fft (binary64, inside Coq)
     cases = []; meta = []
     for _ in range(ctx.q(40, 300)):
@@ -150,6 +194,53 @@ def run(ctx):
         ctx.case(('mod', meta[-1]['function'], x.tobytes(), m, p), nontrivial=(m % 4 != 0), sample={'function': meta[-1]['function'] + ' at modulated input', 'm': m, 'N': N})
     for i in ctx.coq_cases('c04_modulated', PRE_MOD, cases, shard=40, descr='CORRELATION / LEVINSON at inputs modulated by the period-4 character vs the models at QcC'):
         ctx.corr_disagreement(meta[i]['function'], i, meta[i])
+
+    # ---------------- arma.ma against Model/MaEst.v (exact; the model is aryule twice)
+    from spectrum.arma import ma as ma_impl
+    from spectrum import aryule as aryule_impl
+    cases = []; meta = []
+    tries = 0
+    while len(cases) < ctx.q(30, 200) and tries < 2000:
+        tries += 1
+        N = int(rng.integers(5, 10)); M = int(rng.integers(2, 5)); Q = int(rng.integers(1, M))
+        ood = int(rng.integers(0, 8))
+        if ood == 0:
+            Q = int(rng.choice([0, M, M + 1]))
+        elif ood == 1:
+            M = N + int(rng.integers(0, 2)); Q = int(rng.integers(1, 3))
+        cplx = bool(rng.integers(0, 2))
+        x = rng.integers(-4, 5, size=N) + (1j * rng.integers(-4, 5, size=N) if cplx else 0)
+        x = np.asarray(x, dtype=complex if cplx else float)
+        if not np.any(x):
+            x[0] = 1
+        outcome = 0; b = []; rho = 0.0
+        try:
+            b, rho = ma_impl(x, Q, M)
+        except ValueError:
+            outcome = 1
+        except AssertionError:
+            outcome = 2
+        except Exception:
+            outcome = 4                      # any other exception: no outcome of the model matches -> reported as a disagreement
+        kap = 1.0
+        if outcome == 0:
+            if not (np.all(np.isfinite(b)) and np.isfinite(rho)):
+                ctx.count('ma_skipped_nonfinite'); continue
+            try:
+                a1, p1, _ = aryule_impl(x, M, 'biased')
+                r0 = np.sum(np.abs(x) ** 2) / N
+                aa = np.insert(a1, 0, 1); _, p2, _ = aryule_impl(aa, Q, 'biased'); r02 = np.sum(np.abs(aa) ** 2) / len(aa)
+                kap = max(1.0, abs(r0) / max(abs(p1), 1e-300)) * max(1.0, abs(r02) / max(abs(p2), 1e-300))
+            except Exception:
+                kap = 1.0
+            if kap > 1e4:
+                ctx.count('ma_regenerated_illconditioned'); continue
+        cases.append('ma_case %s %s %d%%nat %d%%nat %d%%nat %s %s' % (tolq(1e-9 * kap), czl(x), Q, M, outcome, czl(b), cz(rho)))
+        meta.append({'function': 'arma.ma', 'x': vlib.hexv(x), 'Q': Q, 'M': M, 'outcome': outcome})
+        ctx.count('corr/ma/%s/%s' % ('complex' if cplx else 'real', ['returned', 'ValueError', 'AssertionError', '-', 'other exception'][outcome]))
+        ctx.case(('ma', x.tobytes(), Q, M), nontrivial=(outcome == 0 and Q >= 1), sample={'function': 'arma.ma vs Model.MaEst.ma_est', 'N': N, 'Q': Q, 'M': M, 'outcome': outcome})
+    for i in ctx.coq_cases('c04_ma', PRE_MA, cases, shard=40, descr='arma.ma vs Model/MaEst.v at QcC (outcome, MA parameters, rho)'):
+        ctx.corr_disagreement('arma.ma', i, meta[i])
 
     # ---------------- search over every class
     plan = []
